@@ -28,7 +28,7 @@ CHECKS = {
    technique="deterministic simulation: real dot_f64 under a seeded/recorded thread scheduler and a simulated CPU count; seeded search over schedules x configurations; Miri many-seeds cross-check (thorough)",
    text="Seeded exploration of (length, CPU count, data, schedule): the shipped dot_f64 runs as shuttle tasks whose every scheduling decision comes from VERIF_SEED and is recorded; every (len 0..=200) x (CPUs 1..=16) pair is visited in every tier, plus lengths to 5000 and CPU counts to 200; oracles are exact-integer bit identity (-0.0 is not +0.0), a reassociation error bound, basis probes (each index covered exactly once), bit-identity across schedules and repeated calls, no panic/deadlock/hang, operands intact, no memory of earlier calls (another product before under a larger CPU count, an in-place change after, the self-product v.v), a concurrent second caller, every association of the rounded products for lengths 2..4; injected faults: stalled workers, refused thread creation (through std::thread::Builder), a CPU count that alternates between consultations. A band of million-element vectors is included. Thorough tier adds the unhooked crate on real threads under restricted CPU affinity and under Miri many-seeds. Sampling of schedules, not proof.",
    design="§4.1",
-   note="Trusted: shuttle's model of std::thread::scope/spawn/join; the CPU-count override standing in for num_cpus::get (cross-checked by Miri with real std threads and -Zmiri-num-cpus in the thorough tier); the Dot2 reference and the gamma(n) bound for general floats; a 30 s wall-clock watchdog as the only real clock (never influences a choice)."),
+   note="Trusted: shuttle's model of std::thread::scope/spawn/join; the CPU-count override standing in for num_cpus::get (cross-checked by Miri with real std threads and -Zmiri-num-cpus in the thorough tier); the Dot2 reference and the gamma(n) bound for general floats; a wall-clock watchdog (120 s per run, a time budget per pass) as the only real clock (it never influences a choice; when it fires the report says so)."),
  "C17": dict(
    engine="simcheck (scripted-callback simulator with fault script)",
    technique="deterministic simulation of the user function / user Jacobian as a scripted, recording, fault-injecting peer of the Newton iteration protocol; seeded search over scripts, fault keyings (evaluation index, region) and parameters; reference-model Newton step; restart-composition and replay oracles; shrinking",
